@@ -1,43 +1,150 @@
 """C03 - the resolver selects the deepest command named by the leading tokens."""
-import itertools, random
+import itertools, re
 from hutil import S, unS, err, exc_code, canon_floats, canon_floats_w
 import parsergen as G
 import treegen as T
 
 MODEL = "C03"
 PROP_FILES = ["Props/C03.v"]
-RULE = ("seeded command trees (depth <= 2 quick / 3 thorough, fan-out <= 3, aliases, default / anonymous / hidden / disabled / lenient "
-        "commands, 0-2 options and arguments per command, some with colliding sibling aliases) x all lines of <= 3 tokens over the "
-        "tree's names and aliases + a wrong name, '-v', a known and an unknown option, '--', '' and a value, + random lines of 4-6 "
-        "tokens; non-trivial = a line whose path has >= 1 matched name; distinct by (tree, line)")
-TRUSTED = ["parsability of default sub-commands (first parsable, else first) is observed on the real commands for the oracle"]
-ASSUMPTIONS = ["sibling names/aliases pairwise distinct for the oracle's deepest-path clause (the code does not enforce it; trees "
-               "violating it are still compared model vs implementation)"]
+RULE = ("seeded command trees (fan-out <= 3, aliases, default / anonymous / hidden / disabled / lenient commands, 0-2 options and "
+        "arguments per command): regular trees of depth <= 2 (quick) / <= 3 (thorough), trees forced to hold a path of 3 named "
+        "commands (both tiers), trees with one sibling collision the code accepts (alias = a sibling's name or alias, duplicate "
+        "sibling names; below the top level and, where accepted, at the top level), trees with a global argument and one top-level "
+        "collision the configuration rejects; x all "
+        "lines of <= 3 tokens over the tree's names and aliases + a wrong name, '-v', a known and an unknown option, '--', '' and a "
+        "value; all lines of <= 2 tokens and the lines of 3 tokens with one such token among names, over a case variant of a "
+        "name, a proper prefix of a name, '-5' and '-'; for every named path and every single-alias / all-alias spelling of it "
+        "the lines path, path + option, path + '--' x, path + values, path + unknown; random lines of 4-6 tokens; "
+        "non-trivial = a line whose path has >= 1 matched name; distinct by (tree, line)")
+TRUSTED = ["parsability of default sub-commands (first parsable, else first) is observed on the real commands for the oracle",
+           "every case builds its own application object (the verdict is a function of the case)"]
+ASSUMPTIONS = ["sibling names/aliases pairwise distinct for the oracle's deepest-path, alias and option/tail clauses (the code does "
+               "not enforce it below the top level; trees violating it are generated and compared model vs implementation, and "
+               "the undefined-first-token clause is still evaluated on them)",
+               "plain ApplicationConfig + DefaultResolver; DefaultApplicationConfig (help pre-resolve listener) is not in the "
+               "quantifier of C03 and is C09's subject; a few trees carry a global argument"]
 EXTRA = ["zz"]
+BASE_EXTRA = ["zz", "-v", "--", "", "val", "--zz", "-a", "--ls"]
+
+
+def outside_tokens(names):
+    """tokens that are NOT spellings of the tree: a case variant of a name, a proper prefix of a name, '-5', '-'"""
+    out = []
+    for n in names:
+        v = n[0].upper() + n[1:]
+        if v not in names:
+            out.append(v)
+            break
+    for n in sorted(names, key=lambda x: -len(x)):
+        if len(n) >= 2 and n[:-1] not in names:
+            out.append(n[:-1])
+            break
+    return out + ["-5", "-"]
+
+
+def own_option_tokens(o):
+    if o["flags"] & G.NO_VALUE:
+        return ["--" + o["long"]]
+    return ["--" + o["long"], "5"]
+
+
+def forced_lines(t):
+    """for every path of named commands, spelled by names, with one name replaced by an alias (every position, every
+    alias) and with every name replaced by its first alias: the path alone, followed by a global option, by the last
+    command's own option, by '--' x, by one and two values, by a token naming nothing"""
+    lines = []
+    for p, nodes in T.named_paths(t):
+        spells = [list(p)]
+        for i, n in enumerate(nodes):
+            for a in n["aliases"]:
+                spells.append(p[:i] + [a] + p[i + 1:])
+        if any(n["aliases"] for n in nodes):
+            spells.append([(n["aliases"][0] if n["aliases"] else n["name"]) for n in nodes])
+        last = nodes[-1]
+        for sp in spells:
+            lines.append(sp)
+            lines.append(sp + ["-v"])
+            lines.append(sp + ["--", "x"])
+            lines.append(sp + ["x"])
+            lines.append(sp + ["x", "y"])
+            lines.append(sp + ["zz", "-v"])
+            for o in last["opts"][:1]:
+                lines.append(sp + own_option_tokens(o))
+                lines.append(sp + own_option_tokens(o) + ["--", "x"])
+    seen, out = set(), []
+    for l in lines:
+        if tuple(l) not in seen:
+            seen.add(tuple(l))
+            out.append(l)
+    return out
+
+
+def tree_cases(rng, t, nrand, kmax=3, outside=True):
+    names, opts = T.tree_tokens(t)
+    al = names[:7] + BASE_EXTRA
+    if opts:
+        o = opts[0]
+        al.append("--" + o["long"] + ("=5" if not (o["flags"] & G.NO_VALUE or o["flags"] & 60 == 0) else ""))
+    lines = []
+    for k in range(0, kmax + 1):
+        lines.extend(list(seq) for seq in itertools.product(al, repeat=k))
+    out_t = outside_tokens(names) if outside else []
+    if out_t:
+        full = al + out_t
+        for k in (1, 2):
+            lines.extend(list(seq) for seq in itertools.product(full, repeat=k) if any(x in out_t for x in seq))
+        nm = names[:7] + ["zz"]
+        for pos in range(3):
+            for x in out_t:
+                for y in nm:
+                    for z in nm:
+                        l = [y, z]
+                        l.insert(pos, x)
+                        lines.append(l)
+    lines.extend(forced_lines(t))
+    full = al + out_t
+    for _ in range(nrand):
+        lines.append([rng.choice(full) for _ in range(rng.randint(4, 6))])
+    seen, cases = set(), []
+    for l in lines:
+        if tuple(l) not in seen:
+            seen.add(tuple(l))
+            cases.append({"tree": t, "toks": l})
+    return cases
 
 
 def gen(rng, tier, info):
-    ntrees = {"quick": 40, "thorough": 200, "search": 15}[tier]
+    #            regular  depth-3  colliding  rejected
+    plan = {"quick": (20, 4, 8, 1), "thorough": (150, 20, 32, 4), "search": (10, 2, 4, 0)}[tier]
     maxdepth = {"quick": 2, "thorough": 3, "search": 2}[tier]
     nrand = {"quick": 400, "thorough": 1500, "search": 200}[tier]
     cases = []
-    shapes = {"distinct": 0, "colliding": 0}
-    for ti in range(ntrees):
-        distinct = (ti % 8 != 7)
-        t = T.rand_tree(rng, maxdepth, distinct)
-        shapes["distinct" if T.siblings_distinct(t["cmds"]) else "colliding"] += 1
-        names, opts = T.tree_tokens(t)
-        al = names[:7] + ["zz", "-v", "--", "", "val", "--zz", "-a", "--ls"]
-        if opts:
-            o = opts[0]
-            al.append("--" + o["long"] + ("=5" if not (o["flags"] & G.NO_VALUE or o["flags"] & 60 == 0) else ""))
-        for k in range(0, 4):
-            for seq in itertools.product(al, repeat=k):
-                cases.append({"tree": t, "toks": list(seq)})
-        for _ in range(nrand):
-            cases.append({"tree": t, "toks": [rng.choice(al) for _ in range(rng.randint(4, 6))]})
+    shapes = {"regular": plan[0], "with-a-path-of-3": plan[1], "rejected-top-level-collision": plan[3]}
+    for _ in range(plan[0]):
+        cases.extend(tree_cases(rng, T.rand_tree(rng, maxdepth, True), nrand))
+    for _ in range(plan[1]):
+        cases.extend(tree_cases(rng, T.rand_tree_depth(rng, 3), nrand))
+    for i in range(plan[2]):
+        kind = T.COLLISION_KINDS[i % 4]
+        # every second round of the kinds the top level accepts is made there
+        top_ok = kind in ("alias-is-earlier-name", "alias-is-alias") and (i // 4) % 2 == 1
+        t = T.rand_tree_colliding(rng, maxdepth if tier != "quick" else (2 + (i // 4) % 2), kind, 1 if top_ok else 2, 1 if top_ok else 99)
+        key = "colliding:" + kind
+        shapes[key] = shapes.get(key, 0) + 1
+        cases.extend(tree_cases(rng, t, nrand))
+    nglob = {"quick": 2, "thorough": 12, "search": 1}[tier]
+    shapes["with-a-global-argument"] = nglob
+    for i in range(nglob):
+        # a global argument (required / optional) in front of every command's own arguments
+        t = T.rand_tree(rng, maxdepth, True)
+        t["args"] = [G.arg("g0", G.A_OPT if i % 2 else G.A_REQ, None)]
+        cases.extend(tree_cases(rng, t, nrand))
+    for _ in range(plan[3]):
+        # a top-level alias equal to a LATER top-level name: the configuration is rejected (CannotAddCommandException)
+        cases.extend(tree_cases(rng, T.rand_tree(rng, 2, False), 20, kmax=2, outside=False))
     info["exhaustive"] = True
-    info["distribution"] = {"trees": ntrees, "max_depth": maxdepth, "tree_shapes": shapes, "cases": len(cases)}
+    info["distribution"] = {"trees": sum(plan) + nglob, "max_depth": 3, "tree_shapes": shapes, "cases": len(cases),
+                            "exhaustive_line_length": 3}
     return cases
 
 
@@ -54,24 +161,35 @@ def describe(c):
     return "line=%r\n" % (c["toks"],) + "\n".join(d(x) for x in c["tree"]["cmds"])
 
 
-_APPS = {}
-
-
 def _app(t):
-    import json
-    k = json.dumps(t, sort_keys=True)
-    if k not in _APPS:
-        try:
-            _APPS[k] = (T.mk_app(t), None)
-        except Exception as e:
-            _APPS[k] = (None, e)
-    return _APPS[k]
+    """a new application for every case: the verdict is a function of the case, not of what the worker resolved before"""
+    try:
+        return (T.mk_app(t), None)
+    except Exception as e:
+        return (None, e)
 
 
 def _resolve(app, toks):
     from clikit.args import ArgvArgs
     rc = app.resolve_command(ArgvArgs(["script"] + list(toks)))
     return rc
+
+
+def _lead(toks):
+    lead = []
+    for tk in toks:
+        if tk == "" or tk == "--" or tk.startswith("-"):
+            break
+        lead.append(tk)
+    return lead
+
+
+def _named(c):
+    return c["enabled"] and not c["anonymous"]
+
+
+def _spells(c):
+    return [c["name"]] + list(c["aliases"])
 
 
 def run_impl(c):
@@ -85,7 +203,7 @@ def run_impl(c):
         path = rc.command.full_name.split(" ")
         out = [0, [[S(p) for p in path], G.observe_args(rc.command.args_format, rc.args, EXTRA)]]
     except Exception as ex:
-        return [err(ex), None]
+        return [err(ex), {"msg": str(ex)}]
     # facts for the oracle: parsability of the default sub-commands of the parent of the selected command,
     # and the selection for metamorphic variants of the line
     def sel(tk):
@@ -105,35 +223,35 @@ def run_impl(c):
         except Exception as ex:
             pars.append([d.name, 0 if type(ex).__name__ == "CannotParseArgsException" else 2])
     facts["defaults_of_parent"] = pars
-    # tail variant: everything after the first "--" replaced
+    # tail variants: every token after the first "--" replaced by another one (same number of tokens); a longer tail
     if "--" in toks:
         i = toks.index("--")
+        tail = toks[i + 1:]
+        if tail:
+            facts["tail_same_length"] = sel(toks[:i + 1] + [("server" if x != "server" else "zz") for x in tail])
         facts["tail_variant"] = sel(toks[:i + 1] + ["server", "-x", "zz"])
-    lead = []
-    for tk in toks:
-        if tk == "" or tk == "--" or tk.startswith("-"):
-            break
-        lead.append(tk)
-    # metamorphic variants: a global flag inserted right after the named path; the first path token
-    # replaced by each other spelling (name / alias) of the same top-level command
-    npath = len(path)
+    lead = _lead(toks)
+    # metamorphic variants: global flags inserted right after the named path; each path token
+    # replaced by each other spelling (name / alias) of the same command
     k = 0
     cmds = c["tree"]["cmds"]
+    nodes = []
     for tk in lead:
-        nxt = [x for x in cmds if x["enabled"] and not x["anonymous"] and (tk == x["name"] or tk in x["aliases"])]
+        nxt = [x for x in cmds if _named(x) and tk in _spells(x)]
         if not nxt:
             break
         k += 1
+        nodes.append(nxt[0])
         cmds = nxt[0]["subs"]
     facts["named"] = k
     facts["with_option_after_path"] = sel(toks[:k] + ["-v", "-a"] + toks[k:])
     alts = []
-    if k >= 1:
-        top = [x for x in c["tree"]["cmds"] if x["enabled"] and not x["anonymous"] and (toks[0] == x["name"] or toks[0] in x["aliases"])]
-        if top:
-            for sp in [top[0]["name"]] + top[0]["aliases"]:
-                if sp != toks[0]:
-                    alts.append(sel([sp] + toks[1:]))
+    for i, n in enumerate(nodes):
+        for sp in _spells(n):
+            if sp != toks[i]:
+                alts.append(sel(toks[:i] + [sp] + toks[i + 1:]))
+    if k >= 2:
+        alts.append(sel([(n["aliases"][0] if n["aliases"] else n["name"]) for n in nodes] + toks[k:]))
     facts["alias_variants"] = alts
     return [out, facts]
 
@@ -148,15 +266,11 @@ def canon_model_w(c, w):
 
 def spec_path(tree, toks):
     """the property's reading, for trees with distinct sibling names: (named path, node) or None"""
-    lead = []
-    for tk in toks:
-        if tk == "" or tk == "--" or tk.startswith("-"):
-            break
-        lead.append(tk)
+    lead = _lead(toks)
     cmds = tree["cmds"]
     path, node = [], None
     for tk in lead:
-        nxt = [c for c in cmds if c["enabled"] and not c["anonymous"] and (tk == c["name"] or tk in c["aliases"])]
+        nxt = [c for c in cmds if _named(c) and tk in _spells(c)]
         if not nxt:
             break
         node = nxt[0]
@@ -165,17 +279,25 @@ def spec_path(tree, toks):
     return lead, path, node
 
 
+_UNDEF = re.compile(r'^The command "(.*?)" is not defined\.', re.S)
+
+
 def oracle(c, o):
     r, facts = o
     tree = c["tree"]
     if r[0] == -3:
         return None      # the configuration itself is invalid (both sides agree on the error; not a resolve question)
-    if not T.siblings_distinct(tree["cmds"]):
-        return None
     lead, path, node = spec_path(tree, c["toks"])
     if lead and not path:
+        # the first leading token is no name and no alias of a named top-level command: an undefined command, and the
+        # report names THAT token (this clause does not need distinct sibling names)
         if r != [-1, 7]:
             return "undefined-command-not-reported"
+        m = _UNDEF.match(facts["msg"])
+        if not m or m.group(1) != lead[0]:
+            return "undefined-command-report-names-another-token"
+        return None
+    if not T.siblings_distinct(tree["cmds"]):
         return None
     if r[0] == -1:
         if r[1] not in (1, 2, 3, 7):
@@ -200,13 +322,20 @@ def oracle(c, o):
             return "wrong-default-sub-command"
     k = facts["named"]
     v = facts["with_option_after_path"]
-    if not v[0].startswith("!") and v[:k] != got[:k]:
+    if v != got:
         return "option-after-path-changes-selection"
     for av in facts["alias_variants"]:
         if av != got:
             return "alias-changes-selection"
-    if "tail_variant" in facts and facts["tail_variant"][:len(path)] != got[:len(path)] and not facts["tail_variant"][0].startswith("!"):
-        return "tail-after-double-dash-changes-path"
+    # tokens after "--" are never read as command names by the resolver: the named path stays, and resolution cannot
+    # start to fail (code 7).  They are still arguments of the selected command (the parser may even take one that
+    # spells the command's own name as the command name: "-- run" parses where "-- zz" has one argument too many), so a
+    # parse error or another default sub-command are legitimate differences.
+    for key in ("tail_same_length", "tail_variant"):
+        if key in facts:
+            tv = facts[key]
+            if tv[0] == "!7" or (not tv[0].startswith("!") and tv[:len(path)] != got[:len(path)]):
+                return "tail-after-double-dash-changes-path"
     return None
 
 
